@@ -414,3 +414,97 @@ package system
 //@   ensures (err == nil) == (len(c) == 1 && fromOk(c[0]) && isStringV(fromS(c[0])))
 //@   ensures err == nil ==> res == unbox(fromS(c[0]), String)
 //@   assigns nothing
+//
+// years and months clamp to the end of the month; time of day and offset are kept
+//@ func addMonth(t, m) (res)
+//@   requires civRanges(t) && tD(t) <= daysIn(tY(t), tMo(t))
+//@   let y2 = yearAfter(tY(t), tMo(t), m)
+//@   let m2 = monthAfter(tY(t), tMo(t), m)
+//@   ensures tY(res) == y2 && tMo(res) == m2 && tD(res) == minI(tD(t), daysIn(y2, m2)) && sameTimeOfDay(res, t) && civRanges(res)
+//@   assigns nothing
+//
+//@ func addYear(t, y) (res)
+//@   requires civRanges(t) && tD(t) <= daysIn(tY(t), tMo(t))
+//@   let y2 = yearAfter(tY(t), tMo(t), 12 * y)
+//@   let m2 = monthAfter(tY(t), tMo(t), 12 * y)
+//@   ensures tY(res) == y2 && tMo(res) == m2 && tD(res) == minI(tD(t), daysIn(y2, m2)) && sameTimeOfDay(res, t) && civRanges(res)
+//@   assigns nothing
+//
+//@ func wrapToReferenceDay(t) (res)
+//@   requires civRanges(t)
+//@   ensures tY(res) == 0 && tMo(res) == 1 && tD(res) == 1 && tOff(res) == 0 && tH(res) == tH(t) && tMi(res) == tMi(t) && tS(res) == tS(t) && tNs(res) == tNs(t) && civRanges(res)
+//@   assigns nothing
+//
+// Time +/- quantity: same precision; the amount is first converted to whole units of the
+// precision; the time of day wraps around midnight; a non-time unit is an error
+//@ func (t Time) Add(input) (res, err)
+//@   requires validTimeT(t.time, t.l) && absR(input.value) <= 1000000.0
+//@   ensures !isTimeUnit(input.unit) ==> is(err, ErrMismatchedUnit)
+//@   ensures isTimeUnit(input.unit) ==> err == nil && res.l == t.l && tY(res.time) == 0 && tMo(res.time) == 1 && tD(res.time) == 1 && tOff(res.time) == 0
+//@   ensures isUnit(input.unit, "hour") ==> todNs(res.time) == (todNs(t.time) + truncR(input.value) * NS_HOUR) % 86400000000000 || todNs(res.time) == (todNs(t.time) + truncR(input.value) * NS_HOUR) % 86400000000000 + 86400000000000
+//@   assigns nothing
+//
+//@ func (t Time) Sub(input) (res, err)
+//@   requires validTimeT(t.time, t.l) && absR(input.value) <= 1000000.0
+//@   ensures !isTimeUnit(input.unit) ==> is(err, ErrMismatchedUnit)
+//@   ensures isTimeUnit(input.unit) ==> err == nil && res.l == t.l && tY(res.time) == 0 && tMo(res.time) == 1 && tD(res.time) == 1 && tOff(res.time) == 0
+//@   assigns nothing
+//
+// Date +/- quantity: same precision; year precision moves by whole years, month precision by
+// whole months (the amount converted: 12 months, 365 days, 30 days, fractions dropped); day
+// precision: years and months clamp to the end of the month, a week is seven days; hours and
+// finer, and non-calendar units, are errors
+//@ func (d Date) Sub(input) (res, err)
+//@   requires validDateT(d.date, d.l) && absR(input.value) <= 1000000.0 && tD(d.date) <= daysIn(tY(d.date), tMo(d.date))
+//@   let v = truncR(input.value)
+//@   ensures err == nil ==> res.l == d.l
+//@   ensures datePrec(d.l) == 0 && isCalUnit(input.unit) ==> err == nil && tY(res.date) == tY(d.date) - yearsOf(input.unit, v) && tMo(res.date) == 1 && tD(res.date) == 1
+//@   ensures datePrec(d.l) == 1 && isCalUnit(input.unit) ==> err == nil && tY(res.date) == yearAfter(tY(d.date), tMo(d.date), 0 - monthsOf(input.unit, v)) && tMo(res.date) == monthAfter(tY(d.date), tMo(d.date), 0 - monthsOf(input.unit, v)) && tD(res.date) == 1
+//@   ensures datePrec(d.l) < 2 && !isCalUnit(input.unit) ==> is(err, ErrMismatchedUnit)
+//@   ensures datePrec(d.l) == 2 && isUnit(input.unit, "year") ==> err == nil && tY(res.date) == tY(d.date) - v && tMo(res.date) == tMo(d.date) && tD(res.date) == minI(tD(d.date), daysIn(tY(d.date) - v, tMo(d.date)))
+//@   ensures datePrec(d.l) == 2 && isUnit(input.unit, "month") ==> err == nil && tY(res.date) == yearAfter(tY(d.date), tMo(d.date), 0 - v) && tMo(res.date) == monthAfter(tY(d.date), tMo(d.date), 0 - v) && tD(res.date) == minI(tD(d.date), daysIn(yearAfter(tY(d.date), tMo(d.date), 0 - v), monthAfter(tY(d.date), tMo(d.date), 0 - v)))
+//@   ensures datePrec(d.l) == 2 && isUnit(input.unit, "week") ==> err == nil && tInst(res.date) == tInst(d.date) - 7 * v * 86400000000000
+//@   ensures datePrec(d.l) == 2 && isUnit(input.unit, "day") ==> err == nil && tInst(res.date) == tInst(d.date) - v * 86400000000000
+//@   ensures datePrec(d.l) == 2 && !isUnit(input.unit, "year") && !isUnit(input.unit, "month") && !isUnit(input.unit, "week") && !isUnit(input.unit, "day") ==> is(err, ErrMismatchedUnit)
+//@   assigns nothing
+//
+// x + q is x - (-q): (x + q) - q = x whenever no clamping occurs
+//@ func (d Date) Add(input) (res, err)
+//@   requires validDateT(d.date, d.l) && absR(input.value) <= 1000000.0 && tD(d.date) <= daysIn(tY(d.date), tMo(d.date))
+//@   let v = truncR(0.0 - input.value)
+//@   ensures err == nil ==> res.l == d.l
+//@   ensures datePrec(d.l) == 0 && isCalUnit(input.unit) ==> err == nil && tY(res.date) == tY(d.date) - yearsOf(input.unit, v) && tMo(res.date) == 1 && tD(res.date) == 1
+//@   ensures datePrec(d.l) == 1 && isCalUnit(input.unit) ==> err == nil && tY(res.date) == yearAfter(tY(d.date), tMo(d.date), 0 - monthsOf(input.unit, v)) && tMo(res.date) == monthAfter(tY(d.date), tMo(d.date), 0 - monthsOf(input.unit, v)) && tD(res.date) == 1
+//@   ensures datePrec(d.l) == 2 && isUnit(input.unit, "week") ==> err == nil && tInst(res.date) == tInst(d.date) - 7 * v * 86400000000000
+//@   ensures datePrec(d.l) == 2 && isUnit(input.unit, "day") ==> err == nil && tInst(res.date) == tInst(d.date) - v * 86400000000000
+//@   ensures datePrec(d.l) == 2 && !isUnit(input.unit, "year") && !isUnit(input.unit, "month") && !isUnit(input.unit, "week") && !isUnit(input.unit, "day") ==> is(err, ErrMismatchedUnit)
+//@   assigns nothing
+//
+// DateTime - quantity: same layout and offset. Year and month precision move by whole years /
+// months (the amount converted). At day precision and finer: years and months clamp to the
+// end of the month, a week is seven days; a non-calendar unit is an error. (Amounts in time
+// units at hour precision and finer are covered by roundToDateTimePrecision and timeDuration.)
+//@ func (dt DateTime) Sub(input) (res, err)
+//@   requires validDTT(dt.dateTime, dt.l) && absR(input.value) <= 1000000.0 && tD(dt.dateTime) <= daysIn(tY(dt.dateTime), tMo(dt.dateTime))
+//@   let v = truncR(input.value)
+//@   let t = dt.dateTime
+//@   ensures err == nil ==> res.l == dt.l && tOff(res.dateTime) == tOff(t)
+//@   ensures !isCalUnit(input.unit) ==> err != nil
+//@   ensures dtPrec(dt.l) == 0 && isCalUnit(input.unit) ==> err == nil && tY(res.dateTime) == tY(t) - yearsOf(input.unit, v) && tMo(res.dateTime) == 1 && tD(res.dateTime) == 1
+//@   ensures dtPrec(dt.l) == 1 && isCalUnit(input.unit) ==> err == nil && tY(res.dateTime) == yearAfter(tY(t), tMo(t), 0 - monthsOf(input.unit, v)) && tMo(res.dateTime) == monthAfter(tY(t), tMo(t), 0 - monthsOf(input.unit, v)) && tD(res.dateTime) == 1
+//@   ensures dtPrec(dt.l) >= 2 && isUnit(input.unit, "year") ==> err == nil && tY(res.dateTime) == tY(t) - v && tMo(res.dateTime) == tMo(t) && tD(res.dateTime) == minI(tD(t), daysIn(tY(t) - v, tMo(t)))
+//@   ensures dtPrec(dt.l) >= 2 && isUnit(input.unit, "month") ==> err == nil && tY(res.dateTime) == yearAfter(tY(t), tMo(t), 0 - v) && tMo(res.dateTime) == monthAfter(tY(t), tMo(t), 0 - v) && tD(res.dateTime) == minI(tD(t), daysIn(yearAfter(tY(t), tMo(t), 0 - v), monthAfter(tY(t), tMo(t), 0 - v)))
+//@   ensures dtPrec(dt.l) >= 2 && dtPrec(dt.l) < 5 && isUnit(input.unit, "week") ==> err == nil && tInst(res.dateTime) == tInst(t) - 7 * v * 86400000000000
+//@   ensures dtPrec(dt.l) >= 2 && dtPrec(dt.l) < 5 && isUnit(input.unit, "day") ==> err == nil && tInst(res.dateTime) == tInst(t) - v * 86400000000000
+//@   assigns nothing
+//
+//@ func (dt DateTime) Add(input) (res, err)
+//@   requires validDTT(dt.dateTime, dt.l) && absR(input.value) <= 1000000.0 && tD(dt.dateTime) <= daysIn(tY(dt.dateTime), tMo(dt.dateTime))
+//@   let v = truncR(0.0 - input.value)
+//@   let t = dt.dateTime
+//@   ensures err == nil ==> res.l == dt.l && tOff(res.dateTime) == tOff(t)
+//@   ensures !isCalUnit(input.unit) ==> err != nil
+//@   ensures dtPrec(dt.l) == 0 && isCalUnit(input.unit) ==> err == nil && tY(res.dateTime) == tY(t) - yearsOf(input.unit, v)
+//@   ensures dtPrec(dt.l) == 1 && isCalUnit(input.unit) ==> err == nil && tY(res.dateTime) == yearAfter(tY(t), tMo(t), 0 - monthsOf(input.unit, v)) && tMo(res.dateTime) == monthAfter(tY(t), tMo(t), 0 - monthsOf(input.unit, v))
+//@   ensures dtPrec(dt.l) >= 2 && dtPrec(dt.l) < 5 && isUnit(input.unit, "day") ==> err == nil && tInst(res.dateTime) == tInst(t) - v * 86400000000000
+//@   assigns nothing
